@@ -76,6 +76,138 @@ def static_census(run):
                       "kind: correspondence\nunclassified static: %s\n" % u, no_input=True)
 
 
+def backend_write_sites(run):
+    """Translator-style tie for the process-wide XML backend pointers: every statement of the current
+    topology-xml.c that assigns hwloc_libxml_callbacks / hwloc_nolibxml_callbacks outside the (mutex-protected)
+    register/reset functions must be the ENOSYS fallback the model knows (Conc/Events.v c_enosys)."""
+    src = open(os.path.join(C.REPO, "hwloc/topology-xml.c")).read().split("\n")
+    sites, bad = [], []
+    func = None
+    for i, l in enumerate(src):
+        m = re.match(r"^(hwloc_[A-Za-z0-9_]+)\s*\(", l)
+        if m:
+            func = m.group(1)
+        if re.search(r"\bhwloc_(no)?libxml_callbacks\s*=[^=]", l) and not l.lstrip().startswith("static"):
+            cond = next((src[j].strip() for j in range(i - 1, max(0, i - 4), -1) if src[j].strip().startswith("if")), "")
+            sites.append((func, i + 1, cond))
+            if func in ("hwloc_xml_callbacks_register", "hwloc_xml_callbacks_reset"):
+                continue
+            if not re.fullmatch(r"if \((ret|err) < 0 && errno == ENOSYS\) \{", cond):
+                bad.append("%s:%d guarded by %r" % (func, i + 1, cond))
+    run.cov["xml_backend_pointer_write_sites"] = ["%s:%d %s" % s for s in sites]
+    for b in bad:
+        run.violation("backend-write-site:" + b.split(" ")[0].split(":")[0],
+                      "topology-xml.c writes the process-wide XML backend pointer at a site / under a condition the model does not know: %s "
+                      "(the model only has the errno==ENOSYS fallback; a write after first use is an interference event between independent topologies)" % b,
+                      "kind: correspondence\nsite: %s\n" % b, no_input=True)
+
+
+def make_docs(ctx):
+    """Document factory: the harness exports two topologies, gen/mt_gen.py derives well-formed variants a
+    minimal parser may refuse (single quotes, comments, character references, entities, encodings) and malformed ones."""
+    d = os.path.join(C.BUILD, "c17-docs")
+    os.makedirs(d, exist_ok=True)
+    bases = {"syn": "synthetic pack:2 numa:2 core:2 pu:2", "ma": "xml " + G.xml_path(C.REPO, "8intel64-4n2t-memattrs.xml")}
+    script = ""
+    for k, (b, src) in enumerate(sorted(bases.items())):
+        script += "init %d\nload %d 0 bind=0 %s\nmod %d maset 2 0\nmod %d distadd PU 4\nmod %d refresh\nexportfile %d %s\ndestroy %d\n" % (
+            k, k, src, k, k, k, k, os.path.join(d, "base-%s.%d.xml" % (b, os.getpid())), k)
+    rc, out, err = C.sh([ctx.exe_asan], input=script.encode(), env=C.run_env(), timeout=60)
+    docs = {}
+    for b in sorted(bases):
+        tmp = os.path.join(d, "base-%s.%d.xml" % (b, os.getpid()))
+        txt = open(tmp).read()
+        os.unlink(tmp)
+        docs[b] = {}
+        for v, data in G.make_doc_variants(txt).items():
+            p = os.path.join(d, "%s-%s.xml" % (b, v))
+            if not os.path.exists(p) or open(p, "rb").read() != data:
+                with open(p + ".tmp%d" % os.getpid(), "wb") as f:
+                    f.write(data)
+                os.rename(p + ".tmp%d" % os.getpid(), p)
+            docs[b][v] = p
+    return docs
+
+
+def thread_ops(transcript):
+    res = {}
+    for l in transcript.split("\n"):
+        m = re.match(r"T (\d+) .* bad=(\d+) ops=(\S*)", l)
+        if m:
+            res[int(m.group(1))] = (m.group(3).split(",") if m.group(3) else [], m.group(2))
+    return res
+
+
+def faulty_divergences(ctx, case):
+    """Run the histories concurrently and each one alone in a fresh process (ASan build); -> (list of
+    (thread, call index, command, concurrent, alone), stderr, rc)"""
+    rc, out, err = C.sh([ctx.exe_asan], input=case.encode(), env=C.run_env(), timeout=30)
+    conc = thread_ops(out.decode(errors="replace"))
+    progs = {}
+    for l in case.split("\n"):
+        if l.startswith("prog "):
+            t = l.split(None, 2)
+            progs.setdefault(int(t[1]), []).append(t[2])
+    div = []
+    for i in sorted(progs):
+        rc1, out1, err1 = C.sh([ctx.exe_asan], input=G.solo_case(case, i).encode(), env=C.run_env(), timeout=30)
+        solo = thread_ops(out1.decode(errors="replace")).get(0, ([], "1"))[0]
+        c = conc.get(i, ([], "1"))[0]
+        if rc1 != 0 and rc == 0:
+            rc = rc1
+            err = err1
+        for k in range(max(len(c), len(solo))):
+            a = c[k] if k < len(c) else "missing"
+            b = solo[k] if k < len(solo) else "missing"
+            if a != b:
+                div.append((i, k, progs[i][k] if k < len(progs[i]) else "?", a, b))
+                break
+    return div, err.decode(errors="replace"), rc, conc
+
+
+def run_faulty(ctx, run, name, case):
+    import time
+    replay = "kind: input\ncase: %s\n<<<CASE\n%s>>>CASE\n" % (name, case)
+    div, err, rc, conc = faulty_divergences(ctx, case)
+    run.count(case, nontrivial=True, sample={"case": name, "kind": "indep-faulty"}, kind="indep-faulty")
+    for i, (ops, bad) in conc.items():
+        for o in ops:
+            run.count("%s/%d/%s" % (name, i, o), nontrivial=True, kind="faulty-call-rc%s" % (o[-1] if o else "?"))
+        if bad != "0":
+            run.violation("harness-parse", "thread program not understood in %s" % name, replay, no_input=True)
+    if rc != 0:
+        run.violation("harness-asan:indep-faulty", "ASan/UBSan build failed rc=%d on %s: %s" % (rc, name, err[-600:]), replay + "\nstderr:\n" + err[-3000:])
+    if div:
+        t0 = time.time()
+
+        def still(c):
+            if time.time() - t0 > 25:
+                return False
+            d = faulty_divergences(ctx, c)
+            return d[2] == 0 and any(x[3] != "missing" and x[4] != "missing" for x in d[0])
+        small = G.shrink(case, still) if not getattr(ctx, "replaying", False) else case
+        d2 = faulty_divergences(ctx, small)[0]
+        if not d2:
+            small, d2 = case, div
+        i, k, cmd, a, b = d2[0]
+        toks = cmd.split()
+        site = toks[0] + ("-" + toks[4] + "-" + os.path.basename(toks[5]).replace(".xml", "") if toks[0] == "load" and len(toks) > 5 else ("-" + toks[2] if len(toks) > 2 else ""))
+        run.violation("interference:" + site,
+                      "independent topologies interfere: thread %d, call %d `%s` gives %s next to the other threads' histories but %s when the same history runs alone in a fresh process"
+                      % (i, k, cmd, a, b),
+                      "kind: input\ncase: %s\n<<<CASE\n%s>>>CASE\nthread %d call %d: %s\nconcurrent: %s\nalone: %s\n" % (name, small, i, k, cmd, a, b))
+    rc_t, out_t, err_t = C.sh([ctx.exe_tsan], input=case.encode(), env=C.run_env(TSAN_OPTIONS="halt_on_error=0 exitcode=66 report_signal_unsafe=0 history_size=4"), timeout=300)
+    if rc_t not in (0, 66):
+        run.violation("harness-tsan:indep-faulty", "TSan build failed rc=%d on %s" % (rc_t, name), replay + "\nstderr:\n" + err_t.decode(errors="replace")[-3000:])
+    cats = parse_tsan(err_t.decode(errors="replace"))
+    ctx.tsan_reports += len(cats)
+    for c in sorted(set(cats)):
+        run.violation("tsan:indep-faulty:%s" % c, "ThreadSanitizer data race between independent histories (with failing loads): %s" % c,
+                      replay + "\ntsan:\n" + err_t.decode(errors="replace")[:6000])
+    ctx.faulty_cases += 1
+    ctx.faulty_calls += sum(len(o[0]) for o in conc.values())
+
+
 def parse_tsan(err):
     """-> list of categories, one per ThreadSanitizer data-race report"""
     cats = []
@@ -334,9 +466,17 @@ def check(run, replay=None):
             run.violation("replay-without-input", "this replay file names a theorem or a correspondence, not an input: re-run ./check.py C17", txt[:2000], no_input=True)
             return run.finish(proof, trusted=TRUSTED)
         body = m.group(1)
+        if "# kind: indep-faulty" in body:
+            ctx.replaying, ctx.faulty_cases, ctx.faulty_calls = True, 0, 0
+            make_docs(ctx)
+            run_faulty(ctx, run, "replay", body)
+            return run.finish(proof, trusted=TRUSTED)
         run_case(ctx, run, "replay", body, replaying=True)
         return run.finish(proof, trusted=TRUSTED)
     static_census(run)
+    backend_write_sites(run)
+    ctx.faulty_cases = ctx.faulty_calls = 0
+    docs = make_docs(ctx)
     cases = []
     cdir = os.path.join(C.VERIF, "corpus", "c17")
     if os.path.isdir(cdir):
@@ -357,7 +497,14 @@ def check(run, replay=None):
     cases.append(("load-bind", G.load_bind(rng, C.REPO)))
     cases.append(("nomemattr", G.nomemattr(rng, C.REPO)))
     kinds = {}
+    rng_f = run.rng
+    for r in range(12 if run.tier == "thorough" else 2):
+        for T in ((2, 4, 16) if run.tier == "thorough" else (2, 4)):
+            cases.append(("indep-faulty-T%d-%d" % (T, r), G.indep_faulty(rng_f, C.REPO, docs, T, ordered=(r % 2 == 0))))
     for name, case in cases:
+        if "# kind: indep-faulty" in case:
+            run_faulty(ctx, run, name, case.replace("@DOCS@", os.path.join(C.BUILD, "c17-docs")))
+            continue
         o = run_case(ctx, run, name, case)
         if o:
             k = kinds.setdefault(o["kind"], {"cases": 0, "tsan": set(), "model": set()})
@@ -369,6 +516,8 @@ def check(run, replay=None):
                       "kind: infrastructure\n", no_input=True)
     run.cov["sections"] = {k: {"cases": v["cases"], "tsan_categories": sorted(v["tsan"]), "model_conflicts": sorted(v["model"])} for k, v in kinds.items()}
     run.cov["tsan_reports_total"] = ctx.tsan_reports
+    run.cov["indep_faulty"] = {"cases": ctx.faulty_cases, "calls_compared_with_fresh_process_reference": ctx.faulty_calls,
+                               "documents": {b: sorted(v) for b, v in docs.items()}}
     run.cov["findings_confirmed_by_tsan"] = sorted(ctx.confirmed)
     run.cov["model_conflicts_not_observed_in_this_run"] = ctx.unobserved
     run.cov["threads"] = [2, 4, 16]
